@@ -3,6 +3,6 @@
 OUT=$1; shift
 for d in "$@"; do
   [ -f "$d/patch.diff" ] || continue
-  P=$(basename $(dirname $d) | sed 's/_out2\?$//')
+  P=$(basename $(dirname $d) | sed 's/_out[0-9]*$//')
   /verif/.venv/bin/python /verif/selftest/run_seeded.py "$d" "$P" 2>&1 | grep "^SEEDED" >> $OUT
 done
